@@ -249,3 +249,23 @@ PROPS['C14'] = dict(
     outside='names outside the pool; Unicode case folding',
     assumptions=SIDEB_ASSUME,
 )
+
+
+def gen_h(entry, **params):
+    return spec(entry, params=params, label=entry, replayable=False)
+
+
+PROPS['C17']['quick'] = PROPS['C17']['quick'] + [gen_h('H_generate'), gen_h('H_load')]
+PROPS['C17']['thorough'] = PROPS['C17']['thorough'] + [gen_h('H_generate'), gen_h('H_load')]
+PROPS['C17']['covers'].update({'H_generate': ['content', 'bad-dir', 'load-failed'], 'H_load': ['load-ok', 'load-error']})
+
+PROPS['C18'] = dict(
+    level=MC,
+    quick=[cli('H_cli_gen', 2), cli('H_cli_diff', 2), gen_h('H_generate'), gen_h('H_load')],
+    thorough=[cli('H_cli_gen', 3), cli('H_cli_diff', 3), gen_h('H_generate'), gen_h('H_load')],
+    covers={'H_cli_gen': ['gen-exit0', 'gen-reached-generate'], 'H_cli_diff': ['diff-exit0', 'diff-exit1'], 'H_generate': ['content'], 'H_load': ['load-ok']},
+    bounds_text='one step from an arbitrary prior state: the prior content of every output path is symbolic (absent / equal / different); gen performs no read of an output path and writes exactly Content; diff on an equal file returns 0; load() always passes -tags=wireinject first for every tags string of {"", "foo", "foo bar", "wireinject"}; every generated frame carries the !wireinject constraint. By induction over the history the post-state is a function of the current sources alone',
+    outside='go/build\'s tag semantics (that a file constrained by !wireinject is excluded when the tag is set) and difflib are assumed, not encoded; histories are covered only through the one-step argument',
+    assumptions=CLI_ASSUME + ['load, generateInjectors, copyNonInjectorDecls and format.Source are stubs in H_generate; packages.Load is a stub in H_load',
+                              'go/build excludes files whose constraint is !wireinject when the wireinject tag is set'],
+)
